@@ -77,6 +77,47 @@ func (c *Ctx) runSamplerPair(rule string, pkgs []*packages.Package) {
 				if s == nil || d == nil {
 					continue
 				}
+				// GUARD: both fall back on the material under the same condition
+				fallback := func(fd *ast.FuncDecl, names ...string) (string, bool) {
+					for _, st := range fd.Body.List {
+						ifs, ok := st.(*ast.IfStmt)
+						if !ok || len(ifs.Body.List) == 0 {
+							continue
+						}
+						ret, ok := ifs.Body.List[len(ifs.Body.List)-1].(*ast.ReturnStmt)
+						if !ok || len(ret.Results) != 1 {
+							continue
+						}
+						call, ok := ret.Results[0].(*ast.CallExpr)
+						if !ok {
+							continue
+						}
+						sel, ok := call.Fun.(*ast.SelectorExpr)
+						if !ok {
+							continue
+						}
+						for _, n := range names {
+							if sel.Sel.Name == n {
+								return types.ExprString(ifs.Cond), true
+							}
+						}
+					}
+					return "", false
+				}
+				gs, okS := fallback(s, "SampleSource", "SampleDest")
+				gd, okD := fallback(d, "SourceDensity", "DestDensity")
+				if okS || okD {
+					key := shortPkg(p.PkgPath) + "." + tn + " " + pair[0] + "/" + pair[1] + " fallback guard"
+					c.analysed(shortPkg(p.PkgPath) + "." + tn + "." + pair[1])
+					switch {
+					case okS && okD && gs == gd:
+						c.ok(rule, key, d.Pos(), "sampler and density fall back on the material under the same condition")
+					case okS && okD:
+						c.bad(rule, key, d.Pos(), "the sampler falls back on the material when ("+gs+") but the density when ("+gd+"): for inputs where the two differ the density does not describe the sampler")
+					default:
+						c.bad(rule, key, d.Pos(), "only one of sampler and density falls back on the material's own distribution")
+					}
+				}
 				sc, dc := calls(s), calls(d)
 				var shared []types.Object
 				for fn := range dc {
